@@ -1083,6 +1083,10 @@ func Main(wide bool) {
 				fmt.Println(RunOwn(l)) // executed on a real Conn: own requests next to user requests, late Write returns
 			} else if len(w) > 0 && w[0] == "jr" {
 				fmt.Println(RunJourney(l)) // executed on a real Conn with real callers over a scripted transport
+			} else if len(w) > 0 && w[0] == "ex" {
+				fmt.Println(RunExec(l)) // executed on a real Conn: the program points of exec as scheduling points
+			} else if len(w) > 0 && w[0] == "hb" {
+				fmt.Println(RunBeat(l)) // executed on a real controlConn: close() against the heartbeat loop
 			} else if len(w) > 0 && (w[0] == "cf" || w[0] == "cfk") {
 				fmt.Println(RunCloseFault(l)) // executed on a real Session over transports whose Close fails
 			} else if len(w) > 0 && (w[0] == "avail" || w[0] == "calls" || w[0] == "alive" || w[0] == "probes") {
@@ -1189,7 +1193,11 @@ func Main(wide bool) {
 			os.WriteFile(path+"/fatal.txt", []byte(CfHangDump), 0o644)
 		}
 	}
-	if jrHung || cfHung || ownHung {
+	nex, nhb := 0, 0
+	if wide && !jrHung && !cfHung {
+		nex, nhb = runRoundF(out, tier, path)
+	}
+	if jrHung || cfHung || ownHung || exHung || hbHung {
 		runs = 0 // one confirmed hang is the verdict; the goroutines of that run are still around
 	}
 	nreq := 0
@@ -1234,5 +1242,5 @@ func Main(wide bool) {
 	if len(odd) > 0 {
 		os.WriteFile(path+"/odd_errors.txt", []byte(strings.Join(odd, "\n")+"\n"), 0o644)
 	}
-	out.Close(map[string]interface{}{"scenarios": runs, "requests_observed": nreq, "scripted_socket_cases": nrx, "own_request_cases": nown, "journey_cases": njr, "close_fault_cases": ncf, "answer_kinds": kinds, "write_shapes": shape})
+	out.Close(map[string]interface{}{"scenarios": runs, "requests_observed": nreq, "scripted_socket_cases": nrx, "own_request_cases": nown, "journey_cases": njr, "close_fault_cases": ncf, "exec_point_cases": nex, "heartbeat_close_cases": nhb, "answer_kinds": kinds, "write_shapes": shape})
 }
